@@ -102,6 +102,14 @@ def check(ctx, rep):
             rep.expect('R17.a', ok, key, 'builds %s, one request_from_shell, result to %s' % (variant, uname),
                        'crux_kv %s API `%s`: built %s, %d request(s), un-wrapper %s' % (
                            api, fname, [a[2]['rv']['variant'] for a in aggs], len(reqs), sorted(set(unw_names))))
+            # ... and what the un-wrapper returned is what the API function hands back: in the body that calls unwrap_K the value returned
+            # is that call's result and nothing else (seeded: a helper between the two turning CursorNotFound for cursor 0 into an empty page)
+            for g_, bb_, t_ in unws:
+                ret_ = origins(g_, {'l': 0, 'p': []})
+                rep.expect('R17.b', bool(ret_) and all(o.kind == 'call' and o.bb == bb_ for o in ret_), key + '|returns-unwrapped',
+                           'the result of %s is returned as it is' % uname,
+                           'crux_kv %s API `%s`: what %s returned is changed before it reaches the app (%s): a result or an error the shell reported '
+                           'is replaced' % (api, fname, uname, sorted(set(o.kind if o.kind != 'call' else last_seg(o.term.get('callee') or '?') for o in ret_))))
             # R17.b fields
             if len(aggs) == 1:
                 g, bb, s = aggs[0]
@@ -153,15 +161,66 @@ def check(ctx, rep):
     # in `K` — is exactly the awaited answer. (Seeded: `set_async` answering a repeated identical write from a memo.)
     rep.rule('R17.h', 'every public capability method asks the shell on every path and hands back exactly the awaited answer', floor=10)
 
+    # one generic private request function serving all five operations (`request(ctx, operation, unwrap)`) counts as the request function
+    # too: a crate-local function that is not a public method of the capability and whose async body asks the shell
+    _generic = set()
+    for f_ in kv.built:
+        if f_.kind in ('Fn', 'AssocFn') and not f_.assoc.get('trait') and f_.name not in [x[1] for x in OPS] + [x[1] + '_async' for x in OPS] and \
+                any(True for g_ in [f_] + kv.closures_of(f_) for _ in g_.calls('crux_core::capability::CapabilityContext::request_from_shell')):
+            _generic.add(f_.npath)
+
     def _is_req(t, fname):
         n = norm(t.get('callee') or '')
         if n == 'crux_kv::' + fname:
             return True
+        if n in _generic or norm(t.get('resolved') or '') in _generic:
+            return True
         return last_seg(n) == fname + '_async' and 'KeyValue' in norm(t.get('cself') or n)
 
-    def _awaited_req(g, operand, fname):
+    def _is_generic(t):
+        return norm(t.get('callee') or '') in _generic or norm(t.get('resolved') or '') in _generic
+
+    _RFS = 'crux_core::capability::CapabilityContext::request_from_shell'
+
+    def _callee_name(g, t, family):
+        """last segment of the function a call reaches; for a call through a function pointer captured by this closure (`unwrap(answer)`
+        with `unwrap` handed down from the public method as a function item) the item is looked up where the closure was built"""
+        if t.get('callee'):
+            return last_seg(norm(t['callee']))
+        fop = t.get('f')
+        if not isinstance(fop, dict) or 'l' not in fop:
+            return '?'
+        names = set()
+        for o in origins(g, fop, through_casts=True):
+            if o.kind == 'const' and getattr(o, 'fn', None):
+                names.add(last_seg(norm(o.fn)))
+            elif o.kind == 'arg' and o.n == 1 and g.kind == 'Closure':
+                ups = [tok[2:] for tok in o.suffix if tok.startswith('.^')]
+                for h in family:
+                    for _, _, s_ in h.stmts('assign'):
+                        rv = s_['rv']
+                        if rv['k'] == 'agg' and rv.get('ak') in ('closure', 'coroutine') and rv.get('def') == g.path:
+                            for fld, op in zip(rv.get('fields') or [], rv.get('ops') or []):
+                                if fld in ups:
+                                    if op.get('o') == 'const' and op.get('fn'):
+                                        names.add(last_seg(norm(op['fn'])))
+                                    else:
+                                        for o2 in origins(h, op, through_casts=True):
+                                            names.add(last_seg(norm(o2.fn)) if o2.kind == 'const' and getattr(o2, 'fn', None) else '?')
+            else:
+                names.add('?')
+        return names.pop() if len(names) == 1 else '?'
+
+    def _awaited_req(g, operand, fname, uname=None, family=()):
+        def awaited(o):
+            return o.kind == 'call' and (_is_req(o.term, fname) or call_matches(o.term, [_RFS])) and any(s_[0] == 'await' for s_ in o.steps)
         os_ = origins(g, operand)
-        return bool(os_) and all(o.kind == 'call' and _is_req(o.term, fname) and any(s_[0] == 'await' for s_ in o.steps) for o in os_)
+        if bool(os_) and all(awaited(o) for o in os_):
+            return True
+        # the request folded into this body: the answer goes through the operation's own un-wrapper first
+        return bool(os_) and uname is not None and all(
+            o.kind == 'call' and _callee_name(g, o.term, family) == uname and o.term.get('args') and
+            (lambda a_: bool(a_) and all(awaited(x) for x in a_))(origins(g, o.term['args'][0])) for o in os_)
 
     for variant, fname, uname, fields, resp_fields in OPS:
         for form, mname in (('async', fname + '_async'), ('event', fname)):
@@ -177,6 +236,11 @@ def check(ctx, rep):
                 rep.ok('R17.h', key, 'KeyValue::%s is itself the request function (R17.a)' % mname)
                 continue
             reqs = [(g, bb, t) for g in bs for bb, t in g.calls() if _is_req(t, fname)]
+            folded = False
+            if not reqs:
+                # the request function spliced into this method's own task body: the request_from_shell call is the request
+                reqs = [(g, bb, t) for g in bs for bb, t in g.calls(_RFS)]
+                folded = True
             why = []
             if len(reqs) != 1:
                 why.append('%d call(s) of the request function' % len(reqs))
@@ -186,7 +250,19 @@ def check(ctx, rep):
                     why.append('the request is made inside a loop')
                 if any(r_ in g.reachable([0], removed_blocks=[bb]) for r_ in g.return_blocks()):
                     why.append('a return is reachable without asking the shell')
-                for i, want in enumerate(fields.values()):
+                if folded or _is_generic(t):
+                    # the operation is built here and handed over whole: exactly one KeyValueOperation aggregate in the family, of this
+                    # variant, its fields from the like-named parameters
+                    ops_ = [(g3, s3) for g3 in bs for _, _, s3 in g3.stmts('assign') if s3['rv']['k'] == 'agg' and path_matches(s3['rv'].get('adt'), 'crux_kv::KeyValueOperation')]
+                    if len(ops_) != 1 or ops_[0][1]['rv']['variant'] != variant:
+                        why.append('builds %s, expected one KeyValueOperation::%s' % ([o_[1]['rv']['variant'] for o_ in ops_], variant))
+                    else:
+                        g3, s3 = ops_[0]
+                        for fld, op in zip(s3['rv']['fields'], s3['rv']['ops']):
+                            names, calls = param_names(g3, op, extra=INTO + [('core::clone::Clone::clone', 0)])
+                            if names != {fields.get(fld)} or calls:
+                                why.append('field %s comes from %s %s' % (fld, sorted(names), sorted(calls)))
+                for i, want in enumerate(fields.values() if not (folded or _is_generic(t)) else []):
                     if 1 + i >= len(t['args']):
                         why.append('argument %d missing' % (1 + i))
                         continue
@@ -214,7 +290,7 @@ def check(ctx, rep):
                             if len(rn) != 1 or rc or (rn & (set(fields.values()) | {'self', 'context'})):
                                 good = False
                             tup = o.term['args'][1]
-                            if 'l' not in tup or not _awaited_req(g2, {'l': tup['l'], 'p': list(tup['p']) + ['.0']}, fname):
+                            if 'l' not in tup or not _awaited_req(g2, {'l': tup['l'], 'p': list(tup['p']) + ['.0']}, fname, uname, bs):
                                 good = False
                         if not good:
                             why.append('the event is not the caller\'s constructor applied to exactly the awaited answer of the shell')
